@@ -654,6 +654,8 @@ int xor_hd_decode(xor_code_t *code_desc, char **data, char **parity, int *missin
       break;
     case FAIL_PATTERN_GE_HD:
     default:
+      // hd or more erasures are beyond what this code can repair
+      ret = -1;
       break;
   }
 
